@@ -30,7 +30,13 @@ struct FaultCtl {
   long fired = 0;
   // balance monitors (always on)
   long live_heap = 0;     // successful malloc/calloc/realloc(NULL) minus free(non-null)
-  long live_maps = 0;     // successful mmap minus successful munmap
+  long live_maps = 0;     // mappings created through mmap that have not been unmapped (tracked by start address: an munmap of an
+                          // address nobody mapped - e.g. munmap(NULL, n), which Linux answers with 0 - does not count)
+  static constexpr int kMaxMaps = 4096;
+  void* maps[kMaxMaps];
+  int nmaps = 0;
+  void map_add(void* p) { if (nmaps < kMaxMaps) maps[nmaps++] = p; live_maps++; }
+  void map_del(void* p) { for (int i = 0; i < nmaps; i++) if (maps[i] == p) { maps[i] = maps[--nmaps]; live_maps--; return; } }
   // log of the arena request decisions (for the model correspondence): per-request 1 = failed
   bool decide(int m, long idx);
   bool decide_(int m, long idx) {
@@ -119,7 +125,7 @@ void* __wrap_mmap(void* a, size_t n, int prot, int flags, int fd, off_t off) {
     if (F.decide(FM_VM, idx)) { errno = ENOMEM; return MAP_FAILED; }
   }
   void* p = __real_mmap(a, n, prot, flags, fd, off);
-  if (p != MAP_FAILED) F.live_maps++;
+  if (p != MAP_FAILED) F.map_add(p);
   return p;
 }
 void* __wrap_mmap64(void* a, size_t n, int prot, int flags, int fd, off_t off) {
@@ -128,12 +134,12 @@ void* __wrap_mmap64(void* a, size_t n, int prot, int flags, int fd, off_t off) {
     if (F.decide(FM_VM, idx)) { errno = ENOMEM; return MAP_FAILED; }
   }
   void* p = __real_mmap64(a, n, prot, flags, fd, off);
-  if (p != MAP_FAILED) F.live_maps++;
+  if (p != MAP_FAILED) F.map_add(p);
   return p;
 }
 int __wrap_munmap(void* a, size_t n) {
   int r = __real_munmap(a, n);
-  if (r == 0) F.live_maps--;
+  if (r == 0) F.map_del(a);
   return r;
 }
 }
